@@ -569,12 +569,70 @@ def r09e(ctx):
         raise AnalysisError("R09e: no _insert() call found")
 
 
+def r09f(ctx):
+    """The n-th occurrence is counted over all text nodes, and both ends of a range are placed by the same address.
+
+    (1) `Element._search_positive_position` walks the text nodes and must *accumulate* the matches seen so far: the node that holds
+    occurrence number `position` is the first where seen + found >= position + 1, and the occurrence inside it is number position - seen.
+    (2) The range forms (bookmark, reference mark, annotation around `content`) insert a start element `before=content` and an end element
+    `after=content`; both insertions must address the same occurrence: same `position`, same `main_text`.
+    """
+    from ..shape import find, has
+    repo = ctx.repo
+    ctx.rule("R09f", "occurrence counting accumulates over the text nodes; start and end of a range use the same occurrence address", floor=4)
+    f = repo.func("Element._search_positive_position")
+    loops = [n for n in walk_no_nested(f.node) if isinstance(n, ast.For)]
+    ok = False
+    why = "no loop over the text nodes"
+    if loops:
+        lp = loops[0]
+        per_node = [a for a in ast.walk(lp) if isinstance(a, ast.Assign) and isinstance(a.targets[0], ast.Name) and isinstance(a.value, ast.Call) and call_name(a.value) == "len"
+                    and any(isinstance(x, ast.Call) and call_name(x) == "findall" for x in ast.walk(a.value))]
+        accs = [a for a in ast.walk(lp) if isinstance(a, ast.AugAssign) and isinstance(a.op, ast.Add) and isinstance(a.target, ast.Name)
+                and per_node and isinstance(a.value, ast.Name) and a.value.id == per_node[0].targets[0].id]
+        resets = [a for a in ast.walk(lp) if isinstance(a, ast.Assign) and accs and isinstance(a.targets[0], ast.Name) and a.targets[0].id == accs[0].target.id]
+        if not per_node:
+            why = "no per-node match count"
+        elif not accs or resets:
+            why = "the count of the earlier text nodes is not accumulated with += (or is overwritten)"
+        else:
+            cv, nv = accs[0].target.id, per_node[0].targets[0].id
+            init = [a for a in walk_no_nested(f.node) if isinstance(a, ast.Assign) and isinstance(a.targets[0], ast.Name) and a.targets[0].id == cv and a.lineno < lp.lineno]
+            brk = has(lp, f"if {nv} + {cv} >= position + 1:\n    break") or has(lp, f"if {cv} + {nv} >= position + 1:\n    break") or has(lp, f"if {nv} + {cv} > position:\n    break") \
+                or has(lp, f"if {cv} + {nv} > position:\n    break")
+            idx = bool(find(f.node, f"X_[position - {cv}]"))
+            ok = bool(init) and repo.fold(init[0].value, f.module) == 0 and brk and idx
+            why = f"init 0={bool(init)}, stop test={brk}, index position - {cv}={idx}"
+    ctx.instance("R09f", f"{f.file}:{f.ident}", f"matches seen so far accumulate over the text nodes ({why})", ok=ok, nontrivial=True, line=f.node.lineno)
+    if not ok:
+        ctx.report("R09f", f, loops[0] if loops else f.node, f"occurrence counting: {why}",
+                   "the helper that finds occurrence number `position` of a pattern does not add up the matches of the earlier text nodes: in a paragraph already split by "
+                   "spans or marks the element is inserted at a later occurrence than the one addressed, or the address is reported as not found after the start mark of a "
+                   "range was already inserted")
+    # (2) start / end of a range
+    para = repo.cls("Paragraph")
+    for name, fs in sorted(para.methods.items()):
+        g = fs[0]
+        ins = [c for c in walk_no_nested(g.node) if isinstance(c, ast.Call) and call_name(c) == "_insert"]
+        kw = lambda c, k: next((ast.unparse(x.value) for x in c.keywords if x.arg == k), None)  # noqa: E731
+        for b in [c for c in ins if kw(c, "before") is not None]:
+            for a in [c for c in ins if kw(c, "after") is not None and kw(c, "after") == kw(b, "before")]:
+                same = kw(a, "position") == kw(b, "position") and kw(a, "main_text") == kw(b, "main_text")
+                ctx.instance("R09f", f"{g.file}:{g.ident}", f"start (before={kw(b, 'before')}, position={kw(b, 'position')}) and end (after=…, position={kw(a, 'position')}) address one occurrence",
+                             ok=same, nontrivial=True, line=a.lineno)
+                if not same:
+                    ctx.report("R09f", g, a, f"{norm(a, 70)} vs {norm(b, 70)}",
+                               f"Paragraph.{name} places the start of the range with position={kw(b, 'position')}, main_text={kw(b, 'main_text')} and its end with "
+                               f"position={kw(a, 'position')}, main_text={kw(a, 'main_text')}: for any occurrence but the default one the end lands on another match than the start")
+
+
 def run(ctx):
     r09a(ctx)
     r09b(ctx)
     r09c(ctx)
     r09d(ctx, _cut_sites(ctx.repo)[0])
     r09e(ctx)
+    r09f(ctx)
 
 
 from ..selftest import Seed, unparse_seed  # noqa: E402
@@ -582,6 +640,9 @@ from ..selftest import Seed, unparse_seed  # noqa: E402
 _P = "src/odfdo/paragraph.py"
 _EL = "src/odfdo/element.py"
 SEEDS = [
+    Seed("occurrence counter overwritten instead of accumulated", "fault", _EL, "            count += found_nb\n        else:\n            raise ValueError(f\"Text not found: '{xpath_result}'\")", "            count = found_nb\n        else:\n            raise ValueError(f\"Text not found: '{xpath_result}'\")", "R09f"),
+    Seed("reference-mark end placed without the position", "fault", _P,
+         "            self._insert(\n                reference_end, after=content, position=position, main_text=True\n            )", "            self._insert(reference_end, after=content, main_text=True)", "R09f"),
     Seed("reference-mark end tag is moved instead of rebuilt", "fault", _P,
          "        existing_end_tag = self.get_reference_mark_end(name=name)\n        if existing_end_tag:\n            existing_end_tag.delete()\n\n        # create the end tag\n        end_tag = ReferenceMarkEnd(name)\n",
          "        end_tag = self.get_reference_mark_end(name=name)\n        if not end_tag:\n            end_tag = ReferenceMarkEnd(name)\n", "R09e"),
